@@ -85,14 +85,14 @@ package platform
 //@   ensures result == platformOptsG
 
 //@ func setDriver [C19 C17]
-//@   at call NewDriver#1 assert #user-options-after-platform-options arg1 === platformOptsG ++ opts
-//@   at call NewDriver#2 assert #user-options-after-platform-options arg1 === platformOptsG ++ opts
+//@   at call! NewDriver#1 assert #user-options-after-platform-options arg1 === platformOptsG ++ opts
+//@   at call! NewDriver#2 assert #user-options-after-platform-options arg1 === platformOptsG ++ opts
 
 // ---- C11: a platform on-open/on-close write marked `redacted: true` is written redacted --------------------------------
 //@ func channelWrite [C11]
 //@   requires c != nil
-//@   at call Write#1 assert #redacted-flag-is-passed-through has(op, "redacted") && typeis(get(op, "redacted"), "bool") && as(get(op, "redacted"), "bool") ==> arg1
-//@   at call Write#1 assert #input-is-the-definitions-input has(op, "input") && typeis(get(op, "input"), "string") && arg0 == as(get(op, "input"), "string")
+//@   at call! Write#1 assert #redacted-flag-is-passed-through has(op, "redacted") && typeis(get(op, "redacted"), "bool") && as(get(op, "redacted"), "bool") ==> arg1
+//@   at call! Write#1 assert #input-is-the-definitions-input has(op, "input") && typeis(get(op, "input"), "string") && arg0 == as(get(op, "input"), "string")
 //@   ensures #input-must-be-a-string !(has(op, "input") && typeis(get(op, "input"), "string")) ==> isErr(result, util.ErrBadOption)
 
 // ---- C17: the shipped definition files are well-formed input for the code above ------------------------------------------
@@ -158,12 +158,12 @@ package platform
 //@   requires typeis(f, "string") || typeis(f, "[]byte")
 //@   ensures #a-platform-of-its-own result.1 == nil ==> isnew(result.0)
 //@   ensures #nil-on-error result.1 != nil ==> result.0 == nil
-//@   at call setDriver#1 assert #the-driver-is-built-from-the-loaded-default-section arg1 == pd.Default && isnew(arg1) && arg0 == host && arg2 === opts
+//@   at call! setDriver#1 assert #the-driver-is-built-from-the-loaded-default-section arg1 == pd.Default && isnew(arg1) && arg0 == host && arg2 === opts
 //@ func NewPlatformVariant [C17]
 //@   requires typeis(f, "string") || typeis(f, "[]byte")
 //@   ensures #a-platform-of-its-own result.1 == nil ==> isnew(result.0)
 //@   ensures #nil-on-error result.1 != nil ==> result.0 == nil
-//@   at call setDriver#1 assert #a-driver-is-built-only-for-a-variant-the-definition-has has(pd.Variants, variant)
+//@   at call! setDriver#1 assert #a-driver-is-built-only-for-a-variant-the-definition-has has(pd.Variants, variant)
 //@   at call Errorf#1 assert #the-refusal-of-an-unknown-variant-is-a-platform-error arg1[0] == util.ErrPlatformError
-//@   at call mergeVariant#1 assert #the-named-variant-is-merged-over-the-loaded-default recv == pd.Default && isnew(recv) && has(pd.Variants, variant) && arg0 == get(pd.Variants, variant)
-//@   at call setDriver#1 assert #the-driver-is-built-from-the-merged-section arg1 == pd.Default && arg0 == host && arg2 === opts
+//@   at call! mergeVariant#1 assert #the-named-variant-is-merged-over-the-loaded-default recv == pd.Default && isnew(recv) && has(pd.Variants, variant) && arg0 == get(pd.Variants, variant)
+//@   at call! setDriver#1 assert #the-driver-is-built-from-the-merged-section arg1 == pd.Default && arg0 == host && arg2 === opts
